@@ -3,7 +3,7 @@
    rules (every id written refers to an existing non-empty entry) are judged by tools/c11.py's independent validator on
    the implementation's output, which the pipeline model reproduces byte for byte. *)
 From Coq Require Import String NArith List Bool.
-From RC Require Import lib.Result lib.Bytes model.Layout model.ChkIo model.RichCodec model.RichIo proofs.C11_proofs proofs.Save_sizes proofs.Str_proofs model.Str
+From RC Require Import lib.Result lib.Bytes model.Layout model.ChkIo model.RichCodec model.RichIo proofs.C11_proofs proofs.Save_sizes proofs.Save_refs proofs.Str_proofs model.Str
   gen.GenLayouts gen.GenConsts.
 Import ListNotations.
 
@@ -69,3 +69,17 @@ Theorem C11_a_string_that_cannot_be_stored_is_refused :
   forall w m s, In s (ss_strings m) -> (exists c, In c s /\ (c = 0 \/ 128 <= c)%N) -> exists e, str_encode w m = Raise e.
 Proof. exact str_encode_refuses. Qed.
 Print Assumptions C11_a_string_that_cannot_be_stored_is_refused.
+
+(* THE WHOLE MAP, string references.  If RichChkIo.encode_chk returns at all: the STR section it emits is the rebuilt
+   table; the id -> text lookup L of that table has one entry per string number; and EVERY string number written into the
+   location table, the switch-name table and the sound table (re-encoded or appended) is 0 or a number of that table. *)
+Theorem C11_every_string_number_written_refers_to_the_emitted_table :
+  forall wd r d,
+    forallb rich_form_sec r = true -> save wd r = Ok d ->
+    exists new_str L,
+      rebuild_str r = Ok new_str /\ build_str_lookup 2 new_str = Ok L /\
+      length (sl_by_id L) = length (ss_offsets new_str) /\
+      (forall i n w m, nth_error r i = Some (RDecodedStr n w m) -> n = "STR "%string -> nth_error d i = Some (DStr n w new_str)) /\
+      (N.of_nat (length (sl_by_id L)) <= 1000000 -> Forall (refs_ok L) d)%N.
+Proof. exact saved_string_references_are_valid. Qed.
+Print Assumptions C11_every_string_number_written_refers_to_the_emitted_table.
